@@ -6,6 +6,7 @@ import re
 import sys
 import time
 
+from . import proberun
 from . import gen, runner, kanirun
 from .props import PROPS
 
@@ -187,15 +188,23 @@ def check(pid, tier='quick', seed=0):
         rp = os.path.join(gen.OUT, 'replays', pid, sanitize(v['obligation']) + '.json')
         src = next((x['source'] for x in fn_records if x['fn'] == v['fn']), None)
         cx = None
+        cx_note = None
         if v.get('engine') == 'kani':
             # Kani executes the REAL crate symbolically: its concrete playback gives the failing input of the real code
             cx = kanirun.counterexample(v['fn'], unwind=prop.get('kani_unwind', 12))
+            cx_note = 'failing input of the real code as found by CBMC (Kani concrete playback: the byte vectors are the values of the kani::any() calls of harness %s in /verif/kani/src/lib.rs, in order)' % v['fn']
+        else:
+            # Verus gives no counterexample; where a replay probe (a concrete input against the real library) is mapped to
+            # this obligation and FAILS on the tree being checked, it is the failing input
+            fp = proberun.failing_probe(v['obligation'])
+            if fp:
+                cx = 'probe %s (source: /verif/probe/src/main.rs, run as `bsv-probe %s` against the real library):\n%s' % (fp[0], fp[0], fp[1])
+                cx_note = 'the failing input is the one hard-wired in replay probe %s; it was RUN against the real code of the tree being checked and the property failed on it' % fp[0]
         with open(rp, 'w') as fh:
             json.dump({'property': pid, 'failed_obligation': v['obligation'], 'kind': v['kind'], 'function': v['fn'],
                        'source': src, 'clause_or_site': v['text'], 'verifier': v.get('engine', 'verus'), 'verifier_message': v['message'],
                        'verifier_output': v['rendered'], 'counterexample': cx,
-                       'note': ('failing input of the real code as found by CBMC (Kani concrete playback: the byte vectors are the values of the kani::any() calls of harness %s in /verif/kani/src/lib.rs, in order)' % v['fn']) if cx
-                               else 'the verifier gives no counterexample; no-failing-input-found'}, fh, indent=1)
+                       'note': cx_note if cx else 'the verifier gives no counterexample; no-failing-input-found'}, fh, indent=1)
         lines.append('VIOLATION property=%s replay=%s obligation=%s%s' % (pid, rp, v['obligation'], '' if cx else ' no-failing-input-found'))
         rc = 1
     if undecided and rc == 0:
